@@ -6,7 +6,7 @@ from fractions import Fraction as F
 
 from . import docs, gfx
 from .gfx import Op
-from .pdfwriter import Name, Ref, Str, Stream
+from .pdfwriter import Name, RawToken, Ref, Str, Stream
 from .seeds import TOUNICODE, TOUNICODE16
 
 GLYPHS_A = [b"Alpha", b"Beta", b"Gamma", b"uni0042", b"c_a_t", b"Euro"]
@@ -116,6 +116,25 @@ def font_variants():
         # neither /Encoding nor a standard-14 name: falls back to the shared standard table
         return {b"Type": Name(b"Font"), b"Subtype": Name(b"Type1"), b"BaseFont": Name(b"NoEncoding"), b"FirstChar": 65, b"LastChar": 70, b"Widths": [520] * 6}
 
+    def type3_indirect_bbox(broken):
+        # a Type 3 font whose /FontBBox is an indirect array with an indirect element; in the 'broken' twin that element
+        # is an object that cannot be parsed (the extraction of such a document ends with an exception - and leaves
+        # nothing behind for the documents read after it)
+        def f(alloc, shared):
+            inner = alloc(RawToken(b"<< /Broken >>") if broken else 1000)
+            bbox = alloc([0, -200, inner, 800])
+            return {b"Type": Name(b"Font"), b"Subtype": Name(b"Type3"), b"FontBBox": bbox, b"FontMatrix": [F(1, 1000), 0, 0, F(1, 1000), 0, 0], b"CharProcs": {}, b"Encoding": {b"Type": Name(b"Encoding"), b"Differences": [65] + [Name(g) for g in (b"A", b"B", b"C", b"D", b"E", b"F")]}, b"FirstChar": 65, b"LastChar": 70, b"Widths": [600, 650, 700, 750, 800, 850]}
+
+        return f
+
+    def indirect_width(broken):
+        def f(alloc, shared):
+            inner = alloc(RawToken(b"<< /Broken >>") if broken else 640)
+            fd = alloc({b"Type": Name(b"FontDescriptor"), b"FontName": Name(b"IndW"), b"Flags": 32, b"FontBBox": [0, -200, 1000, 900], b"ItalicAngle": 0, b"Ascent": 800, b"Descent": -200, b"CapHeight": 700, b"StemV": 80, b"MissingWidth": 300})
+            return {b"Type": Name(b"Font"), b"Subtype": Name(b"Type1"), b"BaseFont": Name(b"IndW"), b"FirstChar": 65, b"LastChar": 70, b"Widths": [600, inner, 620, inner, 640, 650], b"FontDescriptor": fd, b"Encoding": Name(b"WinAnsiEncoding")}
+
+        return f
+
     def shared_descendant(which):
         # two Type0 fonts of one document that share their descendant CIDFont object but differ in /ToUnicode
         def f(alloc, shared):
@@ -155,6 +174,10 @@ def font_variants():
         "cid-truetype-cmap2-B": (cid_ttf({0x43: 2}, [(0x20, [9, 8]), (0x42, [1, 2, 3, 4]), (0x44, [0x41, 0x42, 0x43, 0x44])]), 2),
         "cjk-rksj-h-as-stream-wmode1": (cjk_stream(b"90ms-RKSJ-H", b"Japan1", 1), "sjis"),
         "cjk-unijis-v-as-stream-wmode0": (cjk_stream(b"UniJIS-UCS2-V", b"Japan1", 0), 2),
+        "type3-indirect-bbox": (type3_indirect_bbox(False), 1),
+        "type3-indirect-bbox-broken": (type3_indirect_bbox(True), 1),
+        "indirect-width": (indirect_width(False), 1),
+        "indirect-width-broken": (indirect_width(True), 1),
     }
 
 
@@ -185,13 +208,22 @@ FAMILIES = [
     ["cjk-rksj-h", "cjk-rksj-h-as-stream-wmode1", "cjk-euc-h"],
     ["cjk-unijis-v", "cjk-unijis-v-as-stream-wmode0", "identity-h"],
     ["helvetica", "courier", "times", "truetype-tounicode"],
+    ["type3-indirect-bbox", "type3-indirect-bbox-broken", "indirect-width", "indirect-width-broken", "helvetica"],
 ]
+# a twin document has the structure (object numbers, resource names, texts) of its sibling and the OTHER member of each
+# pair in place of a font
+SWAP = {}
+for _a, _b in [("type0-shared-descendant-A", "type0-shared-descendant-B"), ("shared-diffs-A", "shared-diffs-B"), ("unknown-base-diffs-A", "unknown-base-diffs-B"), ("type1-fontfile-A", "type1-fontfile-B"), ("cid-truetype-cmap2-A", "cid-truetype-cmap2-B"), ("type3-indirect-bbox", "type3-indirect-bbox-broken"), ("indirect-width", "indirect-width-broken")]:
+    SWAP[_a], SWAP[_b] = _b, _a
+TWIN = [False]
 
 
 def pick_variant(t, names, theme, label):
     if theme and t.coin(70, 100, label + ".themed"):
-        return t.pick(theme, label + ".fam")
-    return t.pick(names, label)
+        v = t.pick(theme, label + ".fam")
+    else:
+        v = t.pick(names, label)
+    return SWAP.get(v, v) if TWIN[0] else v
 
 
 def text_document(t, ctx, label, theme=None):
@@ -356,7 +388,19 @@ def make_pool(t, ctx, repo):
         k = t.weighted([6, 2, 2], "pool.kind")
         d = None
         if k == 0:
+            start = len(t.rec)
             d = text_document(t, ctx, "text%d" % i, theme)
+            if t.coin(30, 100, "pool.twin"):
+                # the same structural choices once more (replayed), the fonts swapped for their counterparts
+                from .tape import Tape
+
+                TWIN[0] = True
+                try:
+                    tw = text_document(Tape(replay=t.rec[start:-1]), ctx, "text%d-twin" % i, theme)
+                finally:
+                    TWIN[0] = False
+                tw["features"] = sorted(set(tw["features"]) | {"twin of another document (same numbering, other fonts)"})
+                pool.append(tw)
         elif k == 1:
             d = gfx_document(t, ctx, "gfx%d" % i)
         else:
